@@ -65,7 +65,9 @@ class Scoreboard:
 
         diff_result = date - self.startDate
         diff: float = diff_result.total_seconds()
-        idx = int(diff / self.resolution)
+        # floor, not truncation: an instant shortly before the start lies in slot -1
+        # (outside the table), not in slot 0
+        idx = math.floor(diff / self.resolution)
 
         if forceIntoProject:
             if idx < 0:
